@@ -61,6 +61,13 @@ func (r *round2) StoreBroadcastMessage(msg round.Message) error {
 		return fmt.Errorf("commitment: %w", err)
 	}
 
+	// Every participant shares with a polynomial of degree t. A commitment of
+	// another degree would only surface when the commitments are added up at
+	// the end, where nobody can be blamed for it anymore.
+	if body.Phi_i.Degree() != r.threshold {
+		return fmt.Errorf("party %s sent a polynomial of degree %d, expected %d", from, body.Phi_i.Degree(), r.threshold)
+	}
+
 	// These steps come from Figure 1, Round 1 of the Frost paper
 
 	// 5. "Upon receiving ϕₗ, σₗ from participants 1 ⩽ l ⩽ n, participant
